@@ -1376,6 +1376,14 @@ fn client_len_class(rng: &mut Rng) -> usize {
 }
 
 fn gen_case(rng: &mut Rng, tier: Tier, idx: usize) -> Vec<String> {
+    // special scenarios reaching code the scripted-random histories rarely or never reach
+    // (found by an LLVM coverage run of the real code under this harness, see DESIGN.md section 11)
+    if idx % 29 == 11 {
+        return gen_long_rtt_history(rng);
+    }
+    if idx % 37 == 19 {
+        return gen_never_connects(rng);
+    }
     let n = rng.range(1, 4) as usize;
     let seed = rng.below(1 << 30);
     let mut now: u64 = 1_000_000 + rng.below(500_000);
@@ -1677,6 +1685,32 @@ fn gen_case(rng: &mut Rng, tier: Tier, idx: usize) -> Vec<String> {
         if now.saturating_sub(last_flush) >= 15 {
             last_flush = now;
             ops.push(format!("flush {now}"));
+        }
+        // duplicate probes piling up on a gated link until they reach the batch threshold THEMSELVES
+        // (no flush tick in between): a long burst at one instant in the low-activity regime (batch of 4),
+        // every 100th data packet is copied to each gated link; now and then that probe flush fails
+        if in_bh && now + 1500 > bh_until && rng.chance(1, 6) {
+            for j in 0..n {
+                ops.push(format!("setlink {j} br={}", 100_000.0f64.to_bits()));
+            }
+            ops.push(format!("hk {now}"));
+            ka_times.push(now);
+            let total = rng.range(380, 520);
+            let fail_at = if rng.chance(1, 3) { rng.range(250, 400) } else { u64::MAX };
+            for k in 0..total {
+                if k == fail_at {
+                    if let Some(j) = bh_link {
+                        ops.push(format!("failnext {}", j + 1));
+                    }
+                }
+                ops.push(format!("client {now} {}", hexs(&data_packet(seq, false, 24, counter, rng))));
+                counter += 1;
+                sent.push(seq);
+                seq = (seq + 1) & 0x7fff_ffff;
+            }
+            while sent.len() > 64 {
+                sent.remove(0);
+            }
         }
         // regime-swing micro-burst: load up the queues under the HighLoad threshold, let a
         // housekeeping pass downshift the regime before the flush tick, keep the burst going
@@ -1992,6 +2026,121 @@ fn gen_case(rng: &mut Rng, tier: Tier, idx: usize) -> Vec<String> {
     }
     ops.push(format!("flush {}", now + 15));
     let _ = up;
+    ops
+}
+
+/// A long single-link history of routed packets each answered by a cumulative SRT ACK and of keepalive
+/// echoes: more than 100 RTT samples on one link, so that the 100-sample slow minimum window of the RTT
+/// tracker evicts (and the 10-sample fast window many times), with an RTT that ramps and steps.
+fn gen_long_rtt_history(rng: &mut Rng) -> Vec<String> {
+    let n = rng.range(1, 2) as usize;
+    let seed = rng.below(1 << 30);
+    let mut now: u64 = 1_000_000 + rng.below(500_000);
+    let mut ops = vec![format!("init {n} {seed} {now}")];
+    ops.push(format!(
+        "cfg classic={} quality=1 stall={} minif=32 ceil=3000 cto=5000",
+        if rng.chance(1, 4) { 1 } else { 0 },
+        rng.below(2)
+    ));
+    let id = id_from_seed(seed, 0);
+    let mut group_id = id;
+    for b in group_id[128..].iter_mut() {
+        *b = b.wrapping_add(17);
+    }
+    let hexs = |b: &[u8]| to_hex(b);
+    ops.push(format!("uplink {now} 1 {}", hexs(&SRTLA_TYPE_REG_NGP.to_be_bytes())));
+    now += 20;
+    let mut reg2 = SRTLA_TYPE_REG2.to_be_bytes().to_vec();
+    reg2.extend_from_slice(&group_id);
+    ops.push(format!("uplink {now} 1 {}", hexs(&reg2)));
+    now += 300;
+    ops.push(format!("hk {now}"));
+    for i in 0..n {
+        now += 10;
+        ops.push(format!("uplink {now} {} {}", i + 1, hexs(&SRTLA_TYPE_REG3.to_be_bytes())));
+    }
+    let mut next_hk = now + 1000;
+    let mut seq: u32 = (rng.next_u64() as u32) & 0x7fff_0000;
+    let mut counter = 1u64;
+    let rounds = rng.range(115, 170);
+    let mut rtt: u64 = *rng.pick(&[8u64, 30, 80, 200]);
+    let shape = rng.below(4); // 0 steady+jitter, 1 ramp up, 2 step, 3 saw-tooth
+    for r in 0..rounds {
+        match shape {
+            1 => rtt += rng.below(4),
+            2 if r == rounds / 2 => rtt = rtt * 3 + 50,
+            3 => rtt = if r % 25 < 12 { rtt + 7 } else { rtt.saturating_sub(7).max(3) },
+            _ => {}
+        }
+        let jitter = rng.below(6);
+        let k = rng.range(1, 3);
+        let first = seq;
+        for _ in 0..k {
+            ops.push(format!("client {now} {}", hexs(&data_packet(seq, false, 24, counter, rng))));
+            counter += 1;
+            seq = (seq + 1) & 0x7fff_ffff;
+        }
+        now += 15;
+        ops.push(format!("flush {now}"));
+        now += rtt + jitter;
+        while now >= next_hk {
+            ops.push(format!("hk {next_hk}"));
+            for i in 0..n {
+                if rng.chance(9, 10) {
+                    ops.push(format!("uplink {} {} {}", (next_hk + rtt).min(now), i + 1, hexs(&create_keepalive_packet(next_hk).to_vec())));
+                }
+            }
+            next_hk += 1000;
+        }
+        // cumulative ACK just past the packets of this round, on some link; per-packet SRTLA ACKs too
+        let link = rng.below(n as u64) as usize;
+        let mut b = rng.bytes(44);
+        b[0] = 0x80;
+        b[1] = 0x02;
+        b[16..20].copy_from_slice(&seq.to_be_bytes());
+        if rng.chance(1, 2) {
+            let l: Vec<u32> = (0..k as u32).map(|d| first.wrapping_add(d) & 0x7fff_ffff).collect();
+            ops.push(format!("uplink {now} {} {}", link + 1, hexs(&create_ack_packet(&l))));
+        }
+        ops.push(format!("uplink {now} {} {}", link + 1, hexs(&b)));
+        now += rng.below(30);
+    }
+    ops.push(format!("flush {}", now + 15));
+    ops
+}
+
+/// No uplink ever completes registration: housekeeping keeps retrying at the 1 s cadence and, once every
+/// link has been failed for longer than the global timeout (10 s), reports the start-up failure
+/// (`Err` from `handle_housekeeping`); client datagrams in the meantime use pre-registration forwarding.
+fn gen_never_connects(rng: &mut Rng) -> Vec<String> {
+    let n = rng.range(1, 3) as usize;
+    let seed = rng.below(1 << 30);
+    let mut now: u64 = 1_000_000 + rng.below(500_000);
+    let mut ops = vec![format!("init {n} {seed} {now}")];
+    let hexs = |b: &[u8]| to_hex(b);
+    if rng.chance(1, 2) {
+        ops.push(format!("probe {now}"));
+    }
+    let ticks = rng.range(14, 24);
+    let mut counter = 1u64;
+    for t in 0..ticks {
+        now += *rng.pick(&[1000u64, 1000, 1000, 1001, 1500, 1999]);
+        ops.push(format!("hk {now}"));
+        if rng.chance(1, 4) {
+            // REG_NGP / REG_ERR answers, never a REG2 that fits nor a REG3
+            let j = rng.below(n as u64);
+            let ty = *rng.pick(&[SRTLA_TYPE_REG_NGP, SRTLA_TYPE_REG_ERR, SRTLA_TYPE_REG_NGP]);
+            ops.push(format!("uplink {} {} {}", now + 30, j + 1, hexs(&ty.to_be_bytes())));
+        }
+        if rng.chance(1, 3) {
+            for k in 0..rng.range(1, 4) {
+                ops.push(format!("client {} {}", now + 40 + k, hexs(&data_packet(500 + (t * 8 + k) as u32, false, 32, counter, rng))));
+                counter += 1;
+            }
+            ops.push(format!("flush {}", now + 60));
+        }
+    }
+    ops.push(format!("flush {}", now + 15));
     ops
 }
 
